@@ -66,6 +66,13 @@ def op_table(rng, tmpdir):
         name = "extra" if "extra" not in nf.columns else f"extra{len(nf.columns)}"
         return nf.add_nested(flat, name)
 
+    def add_nested_how(how):
+        def f(nf):
+            flat = pd.DataFrame({"z": [1.0, 2.0, 3.0]}, index=[nf.index[0], nf.index[0], nf.index[-1]])
+            name = "extra" if "extra" not in nf.columns else f"extra{len(nf.columns)}"
+            return nf.add_nested(flat, name, how=how)
+        return f
+
     def concat_same(nf):
         return pd.concat([nf, nf.copy()])
 
@@ -121,6 +128,8 @@ def op_table(rng, tmpdir):
         "eval_new_nest": lambda nf: nf.eval("fresh.v = lc.t + 1") if nf.index.is_unique and "fresh" not in nf.columns else nf,
         "field_assign": lambda nf: (lambda c: (c.__setitem__("lc.w", np.arange(c["lc"].nest.flat_length, dtype=float)), c)[1])(nf.copy()),
         "add_nested": add_nested,
+        "add_nested_right": add_nested_how("right"),
+        "add_nested_outer": add_nested_how("outer"),
         "iloc_rows": lambda nf: nf.iloc[::-1],
         "iloc_empty": lambda nf: nf.iloc[:0],
         "mask_rows": lambda nf: nf[np.arange(len(nf)) % 2 == 0],
@@ -163,6 +172,8 @@ def typed(nf):
 EFFECTS = {
     "select_cols": lambda cur, out: "(EKeepCols (fun c => negb (str_eqb c %s)))" % cq_s("b"),
     "add_nested": lambda cur, out: "(EAddNested %s %s)" % (cq_s([c for c in out.columns if c not in cur.columns][0]), cq_list([cq_s("z")])),
+    "add_nested_right": lambda cur, out: "(EAddNested %s %s)" % (cq_s([c for c in out.columns if c not in cur.columns][0]), cq_list([cq_s("z")])),
+    "add_nested_outer": lambda cur, out: "(EAddNested %s %s)" % (cq_s([c for c in out.columns if c not in cur.columns][0]), cq_list([cq_s("z")])),
     "eval_new_nest": lambda cur, out: ("(EAddNested %s %s)" % (cq_s("fresh"), cq_list([cq_s("v")]))) if "fresh" in out.columns and "fresh" not in cur.columns else "EKeep",
     "eval_assign": lambda cur, out: "(ESetField %s %s)" % (cq_s("lc"), cq_s("u")),
     "field_assign": lambda cur, out: "(ESetField %s %s)" % (cq_s("lc"), cq_s("w")),
@@ -237,7 +248,7 @@ def generate(ctx):
         chains = [(n_,) for n_ in names]
         pairs = list(itertools.product(names, repeat=2))
         risky = {"query_all_out", "iloc_empty", "parquet", "pickle", "concat_same", "concat_query", "from_flat", "nest_lists", "from_lists_plain",
-                 "reduce_dotted", "eval_new_nest", "add_nested", "reset_index", "set_index", "merge", "join", "count_nested_by"}
+                 "reduce_dotted", "eval_new_nest", "add_nested", "add_nested_right", "add_nested_outer", "reset_index", "set_index", "merge", "join", "count_nested_by"}
         if ctx.tier == "quick":
             first = [p for p in pairs if p[0] in risky]
             rest = [p for p in pairs if p[0] not in risky]
